@@ -20,12 +20,17 @@ import (
 // 2 = [signer, the other test certificate], 3 = [the other test certificate, signer].
 // Encrypt: 0 = plaintext, 1 = EncryptedAssertion to the SP's certificate (test key 2; needs no secret),
 // 2 = EncryptedAssertion to another certificate (test key 3; the SP cannot decrypt it).
+// Retrieval (encrypted assertions only): 0 = none, else a <ds:RetrievalMethod URI=...> inside the EncryptedData's
+// KeyInfo whose URI is verifRetrievalURIs[Retrieval-1] (a plain fragment, and fragments carrying path metacharacters).
 type verifDocAssertion struct {
-	A       *Assertion
-	Sign    int
-	KeyInfo int
-	Encrypt int
+	A         *Assertion
+	Sign      int
+	KeyInfo   int
+	Encrypt   int
+	Retrieval int
 }
+
+var verifRetrievalURIs = []string{"#k1", "#'", "#k[1"}
 
 type verifDoc struct {
 	R            *Response
